@@ -76,7 +76,9 @@ def cases(tier, seed):
                 yield {"kind": "seq", "t": "grouped-seq", "shape": list(seq), "records": [gshapes[s] for s in seq]}
     for delim, header, rows in itertools.product([",", ";", "\t", "|"],
                                                  [["a", "b"], ["my col", "b-c"], ["x(y)", "n"], ["1st", "_hid", "ok"], ["A", "a2", "c"]],
-                                                 [[["v1", "v2", "v3"], ["w1", "w2", "w3"]], [["1", "2", "3"], ["x y", "z", "q"], ["e", "f", "g"]]]):
+                                                 [[["v1", "v2", "v3"], ["w1", "w2", "w3"]], [["1", "2", "3"], ["x y", "z", "q"], ["e", "f", "g"]],
+                                                  # rows whose cells are all empty are rows too (a record with nothing set in the selected fields)
+                                                  [["v1", "v2", "v3"], ["", "", ""], ["w1", "w2", "w3"]], [["a", "", ""], ["", "", ""], ["", "", ""]]]):
         yield {"kind": "csvread", "t": "csvread", "delim": delim, "header": header, "rows": [r[: len(header)] for r in rows]}
     for delim in (",", ";"):
         for cell in ("two\r\nlines", "bare\rreturn", "unix\nbreak", "mixed\r\n\n\rend", " spaces "):  # (quotes and delimiters inside cells make the dialect sniffing ambiguous: not "safe" content)
